@@ -12,4 +12,5 @@ Extraction "model.ml" vio_kit maxl is_distb veqb
   esrl_init esrl_apply esrl_policy esrl_prob esrl_sample e_exploit e_lri e_expl e_phases e_t e_N e_allowed e_values index_of
   sr_init sr_step sr_sample sr_policy sr_prob sr_phase sr_new sr_avail logbar
   t3c_sample t3c_cost t3c_costs
+  is_prob_matrixb prob_rowb policy_ctor
   separatedb shift is_dist_tolb closeb mass_on_maxb in_supportb.
